@@ -364,6 +364,7 @@ def _reverse_velocities(tier):
             fa, fb = os.path.join(d, "a.xyz"), os.path.join(d, "b.xyz")
             write_xyz_trajectory(fa, pos, vel, [f"A{i}" for i in range(n)], np.array([1.0, 2.0, 3.0]), append=False)
             e = object.__new__(TurtleMDEngine)
+            e.dim = 2  # a two-dimensional TurtleMD system: the file still has three velocity columns, all must be negated
             TurtleMDEngine._reverse_velocities(e, fa, fb)
             b1, x1, v1, n1 = convert_snapshot(next(read_xyz_file(fa)))
             b2, x2, v2, n2 = convert_snapshot(next(read_xyz_file(fb)))
